@@ -69,5 +69,9 @@ void harness(void)
   CH.flags    = ARES_FLAG_NOALIASES | (NOSEARCH ? ARES_FLAG_NOSEARCH : 0);
   vp_absrec_setname_may_fail = 0; /* the REAL allocator is the failure source here */
   vp_absrec_dup_may_fail     = 0;
+#ifdef FLO
+  C14_SPLIT_RANGE(FLO, FHI, scenario());
+#else
   C14_SPLIT(NPOS, scenario());
+#endif
 }
